@@ -6,3 +6,7 @@ template void Memory::Copy<SystemIntType>(void *, const void *, SystemIntType) n
 template void Memory::SetToZero<SystemIntType>(void *, SystemIntType) noexcept;
 template struct StringStream<char>;
 }
+namespace Qentem {
+template struct String<char>;
+template struct Array<SizeT>;
+}
